@@ -10,7 +10,9 @@
 (*                                                                         *)
 (* Record (all integers):                                                  *)
 (*   kind "rect" | "delaunay", id, sub (per image pixel), pos (ticks, one  *)
-(*   <<y,x>> per sub-pixel), P (source pixels), my, mx | V, simp,          *)
+(*   <<y,x>> per sub-pixel), fine (<<dy,dx>> per sub-pixel) and E: the     *)
+(*   position is pos + fine/E (an exact dyadic offset; fine = 0 for a      *)
+(*   plain lattice point), P (source pixels), my, mx | V, simp,            *)
 (*   map / sizes / wn / dq : pix_sub_weights; weight k of sub-pixel q is   *)
 (*                           wn[q][k] / dq[q]                              *)
 (*   drow, M               : mapping_matrix[i][c] = M[i][c] / drow[i]      *)
@@ -34,7 +36,8 @@ Prefix(s, n) == SubSeq(s, 1, n)
 InputOk(r) ==
     /\ \A k \in DOMAIN r.sub : r.sub[k] \in 1 .. 4
     /\ Len(r.pos) = NSub(r.sub) /\ \A q \in DOMAIN r.pos : Len(r.pos[q]) = 2
-    /\ IF IsRect(r) THEN r.P = r.my * r.mx /\ RectInputOk(r.pos, r.my, r.mx)
+    /\ Len(r.fine) = Len(r.pos) /\ (\A q \in DOMAIN r.fine : Len(r.fine[q]) = 2) /\ r.E \in {1, 65536}
+    /\ IF IsRect(r) THEN r.P = r.my * r.mx /\ RectInputOk(r.pos, r.my, r.mx) /\ \A q \in DOMAIN r.fine : r.fine[q] = << 0, 0 >>
        ELSE Len(r.V) = r.P /\ (\A k \in DOMAIN r.V : Len(r.V[k]) = 2) /\ GeneralPosition(r.V)
 PswShapeOk(r) ==
     LET n == Len(r.pos) IN
@@ -69,12 +72,15 @@ ShapeClauses(r) ==
 \* ---- the interpolation table the specification wants ------------------------------------------------------
 Simplices(r) == { r.simp[k] : k \in DOMAIN r.simp }
 Tri3(r, q) == Prefix(r.map[q], 3)
+\* the query point of sub-pixel q (its denominators carry E only when it has an offset)
+Qp(r, q) == IF r.fine[q][1] = 0 /\ r.fine[q][2] = 0 THEN Lat(r.pos[q])
+            ELSE << r.pos[q][1], r.pos[q][2], r.fine[q][1], r.fine[q][2], r.E >>
 \* Delaunay: which containing triangle is taken is free; the weights in the reported one are pinned
 DelTable(r) ==
     [q \in DOMAIN r.pos |->
         IF r.sizes[q] = 3
-        THEN LET t == Tri3(r, q) d == BaryDen(r.V, t) IN
-             [pix |-> t, wn |-> BaryNum(r.V, t, r.pos[q]), d |-> IF d = 0 THEN 1 ELSE d]
+        THEN LET t == Tri3(r, q) d == BaryDen(r.V, t, Qp(r, q)) IN
+             [pix |-> t, wn |-> BaryNum(r.V, t, Qp(r, q)), d |-> IF d = 0 THEN 1 ELSE d]
         ELSE [pix |-> << r.map[q][1] >>, wn |-> << 1 >>, d |-> 1]]
 TableOf(r) == IF IsRect(r) THEN RectTable(r.pos, r.my, r.mx) ELSE DelTable(r)
 
@@ -114,11 +120,11 @@ SemanticClauses(r) ==
                \A q \in 1 .. n : r.sizes[q] = 3 =>
                    /\ IsTriangle(r.V, Tri3(r, q))
                    /\ \E t \in T : Len(t) = 3 /\ TriSet(t) = TriSet(Tri3(r, q))
-                   /\ Inside(r.V, Tri3(r, q), r.pos[q])),
+                   /\ Inside(r.V, Tri3(r, q), Qp(r, q))),
             Cl("single-vertex-only-outside-the-hull",
-               tri /\ \A q \in 1 .. n : r.sizes[q] = 1 => \A t \in T : ~ Inside(r.V, t, r.pos[q])),
+               tri /\ \A q \in 1 .. n : r.sizes[q] = 1 => \A t \in T : ~ Inside(r.V, t, Qp(r, q))),
             Cl("single-vertex-is-a-nearest-one",
-               \A q \in 1 .. n : r.sizes[q] = 1 => IsNearest(r.V, r.map[q][1], r.pos[q])),
+               \A q \in 1 .. n : r.sizes[q] = 1 => IsNearest(r.V, r.map[q][1], Qp(r, q))),
             Cl("weights-are-barycentric",
                \A q \in 1 .. n : /\ r.dq[q] = tb[q].d
                                  /\ \A k \in 1 .. Len(tb[q].wn) : r.wn[q][k] = tb[q].wn[k]),
@@ -146,16 +152,17 @@ SubClass(r) == IF \A a, b \in DOMAIN r.sub : r.sub[a] = r.sub[b] THEN "uniform-s
 HullEdgeSet(V) == { e \in { {a, b} : a, b \in VIdx(V) } : Cardinality(e) = 2 /\ HullEdge(V, e) }
 OutsideHull(V, H, p) ==
     \E e \in H : LET a == CHOOSE k \in e : TRUE  b == CHOOSE k \in e : k # a IN
-        \E u \in VIdx(V) : Sign(Orient(Vx(V, a), Vx(V, b), p)) * Sign(Orient(Vx(V, a), Vx(V, b), Vx(V, u))) < 0
+        \E u \in VIdx(V) : Sign(OrientQ(Vx(V, a), Vx(V, b), p)) * Sign(Orient(Vx(V, a), Vx(V, b), Vx(V, u))) < 0
 Sig(r) ==
     IF IsRect(r)
     THEN "rect/" \o (IF r.my = r.mx THEN "square-mesh" ELSE "non-square-mesh") \o "/" \o SubClass(r)
     ELSE IF ~ InputOk(r) THEN "delaunay/bad-input"
     ELSE LET H == HullEdgeSet(r.V)
              D == DelaunayTriples(r.V)
-         IN "delaunay/" \o (IF \E q \in DOMAIN r.pos : OutsideHull(r.V, H, r.pos[q]) THEN "points-outside-hull" ELSE "all-inside-hull")
+         IN "delaunay/" \o (IF \E q \in DOMAIN r.pos : OutsideHull(r.V, H, Qp(r, q)) THEN "points-outside-hull" ELSE "all-inside-hull")
             \o "/" \o SubClass(r)
             \o (IF \E a \in VIdx(r.V) : Cardinality(SimplexAdj(D, a)) >= 13 THEN "/hub-vertex" ELSE "")
+            \o (IF \E q \in DOMAIN r.fine : r.fine[q] # << 0, 0 >> THEN "/points-near-edges" ELSE "")
 
 TraceInit == /\ i = 1
              /\ inp = [kind |-> "trace"] /\ phase = "trace" /\ tab = << >> /\ mat = << >> /\ uniq = << >> /\ nbr = << >>
